@@ -34,14 +34,18 @@ structure FCok (c : FC) (F : Fmt) : Prop where
   infb : c.infinityBits = F.infBits
   bits : c.bits = F.mbits + F.ebits + 1
   maxd : c.maxDigits ≥ 2
+  /-- a midpoint between adjacent floats has at most `MAX_DIGITS - 1` significant decimal digits -/
+  digits_ok : 2 ^ (F.mbits + 2) * 5 ^ (F.qexp + 1) < 10 ^ (c.maxDigits - 1)
+  /-- a decimal with `MAX_DIGITS - 1` integer digits is beyond the finite range -/
+  tenbig : 2 ^ (F.mbits + 1) * 2 ^ (2 ^ F.ebits - 3) ≤ 10 ^ (c.maxDigits - 1) * 2 ^ F.qexp
 
 theorem fcok64 : FCok f64Consts b64 := by
   rw [SJ.Proofs.LexTables.f64_consts]
-  constructor <;> simp [b64, Fmt.qexp, Fmt.bias, Fmt.infBits]
+  constructor <;> decide +kernel
 
 theorem fcok32 : FCok f32Consts b32 := by
   rw [SJ.Proofs.LexTables.f32_consts]
-  constructor <;> simp [b32, Fmt.qexp, Fmt.bias, Fmt.infBits]
+  constructor <;> decide +kernel
 
 theorem fcok (single : Bool) : FCok (fc single) (if single then b32 else b64) := by
   cases single
